@@ -393,8 +393,26 @@ pub fn random_fault(rng: &mut Rng, b: &mut Vec<u8>) -> Option<&'static str> {
             if lay.records.is_empty() {
                 return None;
             }
-            let (s, _) = *rng.pick(&lay.records);
-            let v = if rng.bool() { 1 } else { rng.u16() };
+            let (s, l) = *rng.pick(&lay.records);
+            let v = match rng.below(4) {
+                0 | 1 => 1,
+                2 => rng.u16(),
+                _ => {
+                    // a vendor id the code under test knows by name, on an
+                    // optional AVP, sometimes with a length that runs past the end
+                    let d = crate::dict::dict();
+                    let x = *rng.pick(&d.ints);
+                    if rng.bool() {
+                        b[s] &= !AVP_M;
+                    }
+                    if rng.chance(1, 3) {
+                        let nl = (l + b.len() - s).min(1023);
+                        b[s] = (b[s] & 0x3F) | (((nl >> 8) as u8 & 3) << 6);
+                        b[s + 1] = nl as u8;
+                    }
+                    if x >= 1 && x <= 0xFFFF { x as u16 } else { 1 }
+                }
+            };
             b[s + 2..s + 4].copy_from_slice(&v.to_be_bytes());
             "set-vendor-id"
         }
